@@ -280,18 +280,24 @@ Vector Spherical_Coordinates(double r, double theta, double phi, const Vector& a
 		return Spherical_Coordinates(r, theta, phi);
 	else
 	{
-		double aux = sqrt(ev[0] * ev[0] + ev[1] * ev[1]);
 		// Axis antiparallel to the z axis: The frame constructed below is undefined, use the mirrored z-aligned frame instead.
-		if(aux == 0.0)
+		double scale = std::max(fabs(ev[0]), fabs(ev[1]));
+		if(scale == 0.0)
 			return Spherical_Coordinates(r, M_PI - theta, M_PI - phi);
+		// Direction (tx, ty) and length aux of the transverse part of the axis. The components are scaled first, their squares underflow for axes very close to the z axis.
+		double tx = ev[0] / scale, ty = ev[1] / scale;
+		double t_norm = sqrt(tx * tx + ty * ty);
+		tx /= t_norm;
+		ty /= t_norm;
+		double aux = scale * t_norm;
 
 		double cos_theta = cos(theta);
 		double sin_theta = sqrt(1.0 - cos_theta * cos_theta);
 		double cos_phi	 = cos(phi);
 		double sin_phi	 = sin(phi);
 
-		libphysica::Vector unit_vector({cos_theta * ev[0] + sin_theta / aux * (ev[0] * ev[2] * cos_phi - ev[1] * sin_phi),
-										cos_theta * ev[1] + sin_theta / aux * (ev[1] * ev[2] * cos_phi + ev[0] * sin_phi),
+		libphysica::Vector unit_vector({cos_theta * ev[0] + sin_theta * (tx * ev[2] * cos_phi - ty * sin_phi),
+										cos_theta * ev[1] + sin_theta * (ty * ev[2] * cos_phi + tx * sin_phi),
 										cos_theta * ev[2] - aux * cos_phi * sin_theta});
 		return r * unit_vector;
 	}
